@@ -191,7 +191,7 @@ var (
 	flagReplay  = flag.String("replaydir", "/verif/replay/out", "directory for counterexample files")
 	flagV       = flag.Bool("v", false, "verbose")
 	flagNoRep   = flag.Bool("noreplay", false, "skip native replay")
-	flagTags    = flag.String("tags", "purego,math_big_pure_go", "build tags for analysis")
+	flagTags    = flag.String("tags", "purego,math_big_pure_go,appengine", "build tags for analysis")
 )
 
 func main() {
@@ -456,6 +456,18 @@ func cmdCheck() int {
 					writeReplayFile(file, h, f)
 				}
 				f.Status = st
+			}
+			usesUF := false
+			for _, st := range rp.Stubs {
+				if strings.HasPrefix(st, "UF:") {
+					usesUF = true
+				}
+			}
+			if f.Status == "not-reproduced" && usesUF {
+				// glue-level harness over uninterpreted primitives: the solver's model fixes values of the
+				// uninterpreted functions, which the natively compiled primitives do not take; the
+				// counterexample is real at the model level and is reported as such
+				f.Status = "model-level counterexample (depends on values of uninterpreted primitives; native replay with the real primitives does not follow the same path)"
 			}
 			if f.Status == "not-reproduced" {
 				// the model does not fail natively: the encoding or a stub is wrong (tooling error, not a violation)
